@@ -21,7 +21,9 @@ TECH = {
     "C07": "static analysis: OpenMP parallel-region effect analysis over AST + whole-program call graph (dispatch slots resolved)",
     "C08": "static analysis: zone-style cursor-bounds dataflow on clang CFG (helper extents, derived pointers), cursor-skeleton execution of count-driven decoders, array-index invariants, recursion, ownership (incl. zlib streams) and refill-progress rules",
     "C09": "static analysis: dominance of capacity guards over stores, codec-pair table by " + AE + ", constant range of emitted offsets, overlap-copy guards, deflate parameter vs bound agreement",
+    "C10": "static analysis: " + AE + " of the Snappy and LZ4 decompressors on streams built from the format documents (structure concrete, payload opaque) compared byte-provenance-wise with a decoder written from the documents; element emitters executed per (length, offset) and decoded by the format's definitions; forward dataflow of field upper bounds in packed tag bytes; LEB128 and length-extension rules",
     "C11": "static analysis: encoder typestate on the pad store and " + AE + " of the hybrid encoder's resting states; cursor-skeleton execution of count-driven codecs; implicit-narrowing rule on the typed AST",
+    "C12": "static analysis: " + AE + " of the raw bit packers with opaque input (terms evaluated on the bit basis against the specification's wiring), of the hybrid decoder on specification-written streams with opaque packed payload and a hooked group unpacker, of the hybrid encoder on equality-pattern sequences read back by the specification's decoder, and of BYTE_STREAM_SPLIT by byte provenance; LEB128 rule",
     "C13": "static analysis: Thrift grammar extraction from writer/parser ASTs, table agreement with a frozen parquet.thrift, " + AE + " of the header codecs over their whole input space and of the LogicalType union, CFG must-pass-through and depth-balance dataflow",
     "C14": "static analysis: " + AE + " of the four page loaders over CRC scenarios and of the CRC entry points with the core hooked; lazy-init dominance; cursor-skeleton execution of the CRC routine over lengths 0..80",
     "C15": "static analysis: dispatch-table extraction + cross-unit prototype agreement; " + AE + " of the wrappers with a seeded table; cursor-skeleton execution of every kernel over all counts (buffer contents unknown); lane-width lint on intrinsic dataflow; overlap-copy guards",
@@ -52,8 +54,6 @@ def _checks():
 CHECKS = _checks()
 
 NOT_APPLICABLE = {
-    "C10": "conformance of Snappy/LZ4 streams to the external grammars is a statement about emitted/accepted byte values; no structural clause beyond the decoder bounds already decided under C08 (DESIGN.md §6)",
-    "C12": "conformance of encoder output to the Parquet encoding specification needs an independent codec as value oracle; no sound structural clause (DESIGN.md §6)",
 }
 
 ALL = ["C%02d" % i for i in range(1, 21)]
